@@ -38,14 +38,15 @@ type KV struct {
 }
 
 type SymReq struct {
-	Browser string `json:"browser"`
-	Method  string `json:"method"`
-	Route   string `json:"route"`
-	Arg     string `json:"arg,omitempty"`
-	Path    string `json:"path,omitempty"`
-	Query   []KV   `json:"query,omitempty"`
-	Form    []KV   `json:"form,omitempty"`
-	BadBody bool   `json:"badbody,omitempty"`
+	Browser  string `json:"browser"`
+	Method   string `json:"method"`
+	Route    string `json:"route"`
+	Arg      string `json:"arg,omitempty"`
+	Path     string `json:"path,omitempty"`
+	Query    []KV   `json:"query,omitempty"`
+	Form     []KV   `json:"form,omitempty"`
+	BadBody  bool   `json:"badbody,omitempty"`
+	RawQuery string `json:"rawquery,omitempty"` // literal raw query (its parsed form must be given in Query)
 }
 
 type SeedSpec struct {
@@ -498,7 +499,7 @@ func (r *Run) exec(s SymStep) StepRec {
 	switch s.Kind {
 	case "req":
 		q := Req{Browser: s.Req.Browser, Method: s.Req.Method, Route: s.Req.Route, Arg: s.Req.Arg, Path: s.Req.Path,
-			Query: r.resolveKVs(s.Req.Query), Form: r.resolveKVs(s.Req.Form), BadBody: s.Req.BadBody}
+			Query: r.resolveKVs(s.Req.Query), Form: r.resolveKVs(s.Req.Form), BadBody: s.Req.BadBody, RawOverride: s.Req.RawQuery}
 		q.fill()
 		browser = q.Browser
 		code := ""
@@ -575,6 +576,15 @@ func (r *Run) exec(s SymStep) StepRec {
 		w.sess.jars[browser] = j
 		w.sess.mu.Unlock()
 		rec.Action = &Action{Kind: "setjar", PID: hx(browser), PW: "session", Jar: canonJar(w, j)}
+	case "forgecookie": // a remember cookie fabricated for an account: base64url(pid ; 32 arbitrary bytes)
+		browser = s.U
+		a := r.account(s.PW.V)
+		raw := a.PID + ";" + strings.Repeat("Z", 32)
+		j := jar{"rm": base64.URLEncoding.EncodeToString([]byte(raw))}
+		w.cook.mu.Lock()
+		w.cook.jars[browser] = j
+		w.cook.mu.Unlock()
+		rec.Action = &Action{Kind: "setjar", PID: hx(browser), PW: "cookie", Jar: canonJar(w, j)}
 	case "copycookie": // a cookie jar is copied to another browser (theft)
 		browser = s.U
 		src := w.cook.get(s.PW.V)
